@@ -514,7 +514,7 @@ def run_pairs(chk, kernels, pairs, invariants, label, key_prefix, max_violations
 # ---------------------------------------------------------------------------------------------
 def _tier_cfg(chk):
     quick = chk.tier == "quick"
-    return {"quick": quick, "max_steps": 20000 if quick else 200000, "budget_all": 60000 if quick else 500000,
+    return {"quick": quick, "max_steps": 20000 if quick else 350000, "budget_all": 60000 if quick else 900000,
             "nrandom": 2 if quick else 8, "entries": kcorpus.names(chk.tier),
             "demos": [] if quick else kcorpus.demo_files()}
 
@@ -618,7 +618,7 @@ def run_c07(chk):
 def run_reads(chk):
     cfgt = _tier_cfg(chk)
     names = [n for n in cfgt["entries"] if n in READS_ENTRIES or not cfgt["quick"]]
-    kernels, errors, bst = build(chk, names, demos=cfgt["demos"], compile=True, nplanes=2)
+    kernels, errors, bst = build(chk, names, demos=cfgt["demos"], compile=True, nplanes=3)
     _report_build_errors(chk, errors, "C05 corpus")
     sel = [k for k in _select(chk, kernels, cfgt["max_steps"]) if k["ext"]["w"] > 0 or k["ext"]["c"] > 0]
     for k in sel:
